@@ -176,9 +176,12 @@ def run_case(ctx, data, plan, mode, pseed, foreign=True, label="gen"):
     libs = common.lib_errors()
     # every third case runs over a seekable double (regular file / BytesIO semantics)
     cls = doubles.SeekableRecordingStream if (pseed + len(data)) % 3 == 0 else doubles.RecordingStream
+    if (pseed + len(data)) % 3 == 1 and len(plan) >= 1:
+        cls = doubles.RawRecordingStream  # an io.RawIOBase (unbuffered file / FIFO / tty): short reads are its nature
     ds = cls(data, {int(k): v for k, v in plan.items()}, rng=random.Random(pseed), record_callers=True,
              budget=6 * len(data) + 64 + 8 * len(plan))
-    ctx.hit("seekable_stream" if cls is doubles.SeekableRecordingStream else "plain_stream")
+    ctx.hit("seekable_stream" if cls is doubles.SeekableRecordingStream else (
+        "raw_iobase_stream" if cls is doubles.RawRecordingStream else "plain_stream"))
     rdr = RTCMReader(ds, validate=1, quitonerror=mode, errorhandler=(lambda e: None))
     delivered = []
     after_fault = 0
@@ -384,6 +387,12 @@ def run(ctx):
             for q in qs[:1]:
                 for mode in (0, 2):
                     run_case(ctx, data, {q: ["short", a - d]}, mode, 0, True, "directed")
+                    # ... and two short reads in a row, the first as long as the surplus (a top-up that miscounts what
+                    # is still missing after the SECOND short read ends up with all a bytes); over every kind of double
+                    j2 = rng.randint(1, max(1, d - (a - d) - 1))
+                    for ps in (0, 1, 2):
+                        run_case(ctx, data, {q: ["short", a - d], q + 1: ["short", j2]}, mode, ps - len(data) % 3, True,
+                                 "directed")
                 ctx.hit("directed_short_by_surplus")
         for kind, start, (n1, variant) in stales:
             # a read INSIDE F1 fails (short payload read / nothing for the trailer): F1 is given up; X follows
